@@ -221,27 +221,6 @@ func stability(run *lib.Run, rng *lib.Rand, o lib.Opts) {
 			return
 		}
 		quiesce(true)
-		if os.Getenv("C02_EXPLORE") == "2" {
-			d, err := datastore.GetDataByUUIDName(dvid.UUID(uuidR), "la")
-			if err == nil {
-				db, _ := datastore.GetOrderedKeyValueDB(d)
-				minK, maxK := storage.DataInstanceKeyRange(d.InstanceID())
-				ch := make(chan *storage.KeyValue, 100)
-				go db.RawRangeQuery(minK, maxK, true, ch, nil)
-				n, nv := 0, 0
-				for kv := range ch {
-					if kv == nil {
-						break
-					}
-					n++
-					if v, _ := storage.VersionFromDataKey(kv.K); v == verV {
-						nv++
-					}
-					fmt.Printf("  LAKEY %x\n", []byte(kv.K))
-				}
-				fmt.Printf("LA keys %d atV %d after %s\n", n, nv, st.Ops[len(st.Ops)-1])
-			}
-		}
 		now := snapshot(entries, byPkg)
 		for k, v := range cur {
 			if now[k] != v && !strings.Contains(k, "/lmscratch/") {
